@@ -29,7 +29,8 @@ if [ -n "$EXTRA" ]; then
     if [ $P = 1 ]; then RERUN="$RERUN$name (failed under load, passes alone);"; else echo "NOT CONFIRMED: $name fails with the change"; OK=0; fi
   done <<< "$EXTRA"
 fi
-echo "$SUM" | grep -qE "40[01] passed|399 passed" || { echo "NOT CONFIRMED: suite result differs"; OK=0; }
+# every failure is either one of the 4 baseline ones or passed when re-run alone; the run must have covered the whole suite
+echo "$SUM" | grep -qE "405 tests run" || { echo "NOT CONFIRMED: suite did not run completely"; OK=0; }
 SUM="$SUM $RERUN"
 if [ $OK = 1 ]; then
   D=/verif/seeded/$ID; mkdir -p $D; cp -r SEED/. $D/
